@@ -467,7 +467,7 @@ func (x *fnCtx) evalSpec(env *specEnv, e *SExpr) *Val {
 			return base.Tup[i]
 		}
 		fv := x.specField(env, base, e.Op)
-		if env.closed && len(env.bound) == 0 && env.st != nil && env.heap == env.st.heap && fv != nil && fv.Tup == nil {
+		if env.closed && !env.inQuant && env.st != nil && env.heap == env.st.heap && fv != nil && fv.Tup == nil {
 			x.assumeValAllocated(env.st, fv)
 		}
 		return fv
@@ -806,6 +806,7 @@ func (x *fnCtx) evalSpecCall(env *specEnv, e *SExpr) *Val {
 			n.bound[k] = v
 		}
 		n.bound[args[0].Op] = scalar(vt, bv)
+		n.inQuant = true
 		pat := x.evalSpec(&n, args[1]).L[0]
 		body := x.evalSpecBool(&n, args[2])
 		return scalar(tBool, Forall([]*Term{bv}, body, pat))
@@ -826,6 +827,7 @@ func (x *fnCtx) evalSpecCall(env *specEnv, e *SExpr) *Val {
 			n.bound[k] = v
 		}
 		n.bound[args[0].Op] = scalar(vt, bv)
+		n.inQuant = true
 		body := x.evalSpecBool(&n, args[len(args)-1])
 		if strings.HasPrefix(name, "forall") {
 			// distribute over conjunctions so that each conjunct gets its own trigger
@@ -1048,6 +1050,25 @@ func (x *fnCtx) evalSpecCall(env *specEnv, e *SExpr) *Val {
 			}
 		}
 		x.fail("spec: visitedIn(%d, ...): no such map range loop", n)
+	case "rangedmap":
+		// rangedmap(N): the map object the N-th map range loop of this function iterates over
+		// (Go evaluates the range expression once, before the loop)
+		n, _ := strconv.Atoi(args[0].Op)
+		cnt := 0
+		for _, b := range x.fn.Blocks {
+			for _, in := range b.Instrs {
+				if rg, ok := in.(*ssa.Range); ok {
+					if _, isMap := rg.X.Type().Underlying().(*types.Map); !isMap {
+						continue
+					}
+					cnt++
+					if cnt == n {
+						return x.getVal(env.st, env.fr, rg.X)
+					}
+				}
+			}
+		}
+		x.fail("spec: rangedmap(%d): no such map range loop", n)
 	case "visited":
 		// visited(k): key k already visited by the (single) map range loop of this function
 		k := ev(0)
